@@ -30,7 +30,7 @@ type c39Case struct {
 	Proto string `json:"proto"` // text | binary
 	Limit int    `json:"limit"` // max_sql_result_size: -1, 5, 10000
 	Rel   string `json:"rel"`   // rows per shard relative to the limit: lt | eq | gt ; "free" (12 rows) when unlimited
-	Size  string `json:"size"`  // bytes per shard result: small | m15_9 | m16 | m16_1 | m33 | giant
+	Size  string `json:"size"`  // bytes per shard result: small | m15_9 | m16 | m16_1 | m33 | giant | m36x1 m36x3 m50x1 m50x3 m70x1 m70x3 (3, 4, 5 chunks of 16 MiB from ONE backend; x1 = 1 MiB rows, x3 = ~3.5 MiB rows when the row count is free)
 	Order bool   `json:"order"` // ORDER BY id
 }
 
@@ -42,7 +42,7 @@ var (
 	c39Paths  = []string{"unshard", "single", "shard2", "shard4"}
 	c39Protos = []string{"text", "binary"}
 	c39Limits = []int{-1, 5, 10000}
-	c39Sizes  = []string{"small", "m15_9", "m16", "m16_1", "m33", "giant"}
+	c39Sizes  = []string{"small", "m15_9", "m16", "m16_1", "m33", "giant", "m36x1", "m36x3", "m50x1", "m50x3", "m70x1", "m70x3"}
 )
 
 func c39Rels(limit int) []string {
@@ -52,7 +52,38 @@ func c39Rels(limit int) []string {
 	return []string{"lt", "eq", "gt"}
 }
 
+// c39MultiChunk returns the MiB per shard and the row size class of the sizes that make one
+// backend deliver its result in three or more 16 MiB chunks.
+func c39MultiChunk(size string) (mib int, x3 bool, ok bool) {
+	switch size {
+	case "m36x1":
+		return 36, false, true
+	case "m36x3":
+		return 36, true, true
+	case "m50x1":
+		return 50, false, true
+	case "m50x3":
+		return 50, true, true
+	case "m70x1":
+		return 70, false, true
+	case "m70x3":
+		return 70, true, true
+	}
+	return 0, false, false
+}
+
 func (c c39Case) valid() bool {
+	if _, x3, ok := c39MultiChunk(c.Size); ok {
+		if c.Path == "shard4" {
+			return false // 4 x 70 MiB per case: the per-backend chunk loop is the same code as with 2 shards
+		}
+		if x3 && c.Rel != "free" {
+			return false // the row count is fixed by the limit: the row size variant is meaningless
+		}
+		if c.Order && c.Path != "shard2" {
+			return false
+		}
+	}
 	if c.Size == "giant" && (c.Limit == 10000 || c.Path == "single" || c.Path == "shard4") {
 		return false // 10 000 rows of > 16 MiB each; multi-frame rows are exercised on the unsharded and 2-shard paths only
 	}
@@ -82,6 +113,12 @@ func (c c39Case) rows() int {
 	if c.Size == "giant" {
 		return 2
 	}
+	if mib, x3, ok := c39MultiChunk(c.Size); ok {
+		if x3 {
+			return mib * 2 / 7 // rows of about 3.5 MiB
+		}
+		return mib // rows of 1 MiB
+	}
 	return 12
 }
 
@@ -101,6 +138,9 @@ func (c c39Case) bytes() int64 {
 		return 34603008
 	case "giant":
 		return n * 17 << 20 // every row is one multi-frame packet of 17 MiB
+	}
+	if mib, _, ok := c39MultiChunk(c.Size); ok {
+		return int64(mib) << 20
 	}
 	return 0
 }
@@ -790,11 +830,15 @@ func c39Core() []c39Case {
 		{"shard4", "text", -1, "free", "m33", false},
 		{"shard4", "text", 10000, "lt", "small", true},
 		{"shard4", "binary", 5, "eq", "small", false},
+		// one backend delivering 3, 4, 5 chunks: every chunk loop (sharded fetch-all, streaming) must go round more than twice
+		{"single", "text", -1, "free", "m36x1", false},
+		{"shard2", "binary", -1, "free", "m50x3", false},
+		{"unshard", "text", -1, "free", "m70x1", false},
 	}
 }
 
 func TestVerif_C39(t *testing.T) {
-	rec := kit.Start("C39", "exploration", "case = (path unshard|single|shard2|shard4) x (text|binary protocol) x max_sql_result_size {-1,5,10000} x rows per shard {limit-1,limit,limit+1 | 12 when unlimited (2 for 17 MiB rows)} x bytes per shard result {100 B rows, 15.9, 16, 16.1, 33 MiB, 17 MiB rows} x ORDER BY; quick = fixed core list + seeded sample, thorough = whole space; a case is non-trivial when the fake backend served its statement; distinct key = the feature vector")
+	rec := kit.Start("C39", "exploration", "case = (path unshard|single|shard2|shard4) x (text|binary protocol) x max_sql_result_size {-1,5,10000} x rows per shard {limit-1,limit,limit+1 | 12 when unlimited (2 for 17 MiB rows)} x bytes per shard result {100 B rows, 15.9, 16, 16.1, 33 MiB, 17 MiB rows, 36/50/70 MiB = 3/4/5 chunks from one backend with 1 MiB or 3.5 MiB rows} x ORDER BY; quick = fixed core list + seeded sample, thorough = whole space; a case is non-trivial when the fake backend served its statement; distinct key = the feature vector")
 	defer rec.Finish(t)
 	rec.Assume("the fake MySQL server (rig R3) emits text-protocol result sets exactly as scripted; rows are identified by SHA-256 over their cell values, so the comparison does not depend on packet framing")
 	rec.Assume("row limit semantics per the property: a per-shard result with rows <= max_sql_result_size is delivered in full, rows > limit is an error; -1 means unlimited")
@@ -852,9 +896,14 @@ func TestVerif_C39(t *testing.T) {
 		r := kit.SubRand(kit.Seed(), "C39/sample")
 		for i := 0; i < 36; i++ {
 			c := all[r.Intn(len(all))]
-			// keep the quick tier within its byte budget: at most every third sampled case is a 33 MiB / giant one
-			if (c.Size == "m33" || c.Size == "giant") && i%3 != 0 {
+			// keep the quick tier within its byte budget: at most every third sampled case is a 33 MiB / giant one,
+			// at most every ninth a multi-chunk (36-70 MiB per backend) one
+			_, _, multi := c39MultiChunk(c.Size)
+			if ((c.Size == "m33" || c.Size == "giant") && i%3 != 0) || (multi && i%9 != 0) {
 				c.Size = []string{"small", "m15_9", "m16", "m16_1"}[r.Intn(4)]
+			}
+			if !c.valid() {
+				c.Order = false
 			}
 			list = append(list, c)
 		}
